@@ -298,6 +298,15 @@ class PeerCase:
                     ch.tls = None
                     ch.inb = ch.outb = None
                     ch.plain_buf = bytearray(rest)
+                if (r.get("reset_after") or r.get("close_after")) and r.get("data") and r["data"].get("dir") in ("send", "recv"):
+                    # the reaction that starts a transfer also ends the control connection: the data connection is a
+                    # separate stream, let it run to its end first (otherwise tearing it down races with the payload)
+                    t0 = time.time()
+                    while time.time() - t0 < 2.0:
+                        d = st.get("dstate")
+                        if d and (d.get("done") or d.get("sent_all")):
+                            break
+                        time.sleep(0.002)
                 if r.get("reset_after"):
                     self._save_raw(st)
                     self._drop_data(st)
